@@ -558,7 +558,7 @@ func TestVerifC04(t *testing.T) {
 	quiet()
 	p := &vkit.Prop{ID: "C04", Unit: "configurations", New: func() interface{} { return &caseSpec{} }, Gen: genCase(1, 1, 20),
 		Run: func(c interface{}, s *vkit.Stats) error { return runCase(c, s, "C04") }}
-	s := p.Main(t, vkit.Scale(3000, 40000))
+	s := p.Main(t, vkit.Scale(8000, 40000))
 	if !vkit.Replaying() {
 		s.Done()
 	}
